@@ -251,6 +251,46 @@ class Activation:
         self.depth = depth
 
 
+class _Intrinsics(dict):
+    """Stand-ins for functions, keyed by qualified name.  A name is stored under the qualified name of the function it
+    resolves to today (a class or function that moved to another module and is re-exported keeps its stand-in)."""
+
+    def __init__(self, facts_):
+        super().__init__()
+        self._facts = facts_
+
+    def _canon(self, key):
+        try:
+            return self._facts.func(key).qualname
+        except Exception:
+            return key
+
+    def __setitem__(self, key, value):
+        super().__setitem__(self._canon(key), value)
+
+    def update(self, other=(), **kw):
+        for k, v in dict(other, **kw).items():
+            self[k] = v
+
+    def __contains__(self, key):
+        return super().__contains__(key) or super().__contains__(self._canon(key))
+
+    def get(self, key, default=None):
+        if super().__contains__(key):
+            return super().get(key)
+        return super().get(self._canon(key), default)
+
+    def __getitem__(self, key):
+        if super().__contains__(key):
+            return super().__getitem__(key)
+        return super().__getitem__(self._canon(key))
+
+    def pop(self, key, *d):
+        if super().__contains__(key):
+            return super().pop(key, *d)
+        return super().pop(self._canon(key), *d)
+
+
 class Interp:
     """One analysis session (shared heap, loop ids, draw serials)."""
 
@@ -269,7 +309,7 @@ class Interp:
         self.stack: list[Activation] = []
         self.call_log: list[tuple] = []             # (caller qualname, callee qualname, line)
         self.unresolved: list[tuple] = []           # (qualname, line, text)
-        self.intrinsics = {}
+        self.intrinsics = _Intrinsics(self.facts)
         self.builtin_hooks = {}
         self.closures = {}
         self.yield_hooks = {}
